@@ -265,6 +265,11 @@ func (s *Session) OpenStream() (*Stream, error) {
 	// Register the stream
 	stream := newStream(s, id)
 	s.streamLock.Lock()
+	if s.streams == nil {
+		// the session was closed after the check above and its close task has dropped the stream table
+		s.streamLock.Unlock()
+		return nil, ErrSessionShutdown
+	}
 	if _, ok := s.streams[id]; ok {
 		s.streamLock.Unlock()
 		return nil, ErrStreamsExhausted
